@@ -3,6 +3,7 @@
 Oracle: linear-scan definitions written from the statement (leftmost equal / rightmost below /
 rightmost not-above / leftmost above / leftmost not-below, None when there is none).
 Exhaustive core: all sorted lists of length 0-7 over a 5-value domain x 11 probes x 5 helpers.
+Long lists: 0..N-1 with a run of 1-5 equal values at every position, for lengths around powers of two (size-dependent strategies).
 Generated part: Hypothesis lists of floats (+-inf, +-0.0, duplicates, up to 200 long; thorough: also
 ints beyond 2**53 and strings) with probes taken from the list, one ulp beside it, or anywhere.
 Thorough tier: crosshair (contract-directed input search with z3) runs the contracts of tfverif/contracts_c18.py as a second generator.
@@ -20,7 +21,7 @@ ID = "C18"
 LEVEL = "exploration"
 RULE = (
     "exhaustive: every sorted list (multiset) of length 0-7 over the domain {1,3,5,7,9} x every probe in 0..10 x the 5 helpers, "
-    "compared with linear-scan definitions; generated: Hypothesis sorted float/int/str lists up to 200 long with probes from the "
+    "compared with linear-scan definitions; long lists: every position of a run of 1/2/3/5 equal values in 0..N-1 for 14 lengths N from 31 to 257 (thorough: up to 2049); generated: Hypothesis sorted float/int/str lists up to 200 long with probes from the "
     "list, +-1 ulp beside an element, or arbitrary. Non-trivial = the probe occurs more than once in the list, or lies at/below the "
     "first or at/above the last element (boundary answers, None answers); distinct by (helper, list, probe)."
 )
@@ -72,7 +73,9 @@ def nontrivial(lst, x):
 def shards(tier):
     n = 15
     per = 400 if tier == "quick" else 6000
-    s = [{"kind": "exhaustive"}] + [{"kind": "hyp", "n": per, "wide": tier == "thorough" and i % 3 == 0} for i in range(n)]
+    s = [{"kind": "exhaustive"}] + [{"kind": "hyp", "n": per, "wide": tier == "thorough" and i % 3 == 0} for i in range(n - 1)]
+    lengths = [31, 32, 33, 64, 65, 100, 127, 128, 129, 130, 200, 255, 256, 257] + ([300, 511, 512, 513, 1000, 1024, 1025, 2049] if tier == "thorough" else [])
+    s += [{"kind": "runs", "lengths": [N]} for N in lengths]
     if tier == "thorough":
         s.append({"kind": "crosshair"})  # contract-directed input search with z3 as a second generator (integer lists)
     return s
@@ -120,6 +123,26 @@ def run_shard(spec, ctx):
             check_one(fns, cex["helper"], cex["list"], cex["x"])  # re-confirm with the check's own oracle -> Violation
             raise core.HarnessError("crosshair counterexample %r did not reproduce" % (cex,))
         return
+    if spec["kind"] == "runs":
+        # long lists (implementations may switch strategy with the size): 0..N-1 with one run of equal values at every position,
+        # probed at the run's value and half a step beside it
+        n_lists = 0
+        for N in spec["lengths"]:
+            for start in range(N):
+                for r in (1, 2, 3, 5):
+                    if start + r > N:
+                        continue
+                    lst = list(range(start)) + [start] * r + list(range(start + 1, N - r + 1))
+                    n_lists += 1
+                    for x in (start, start - 0.5, start + 0.5):
+                        for name in HELPERS:
+                            check_one(fns, name, lst, x)
+                            acc.ev()
+                            if r > 1 and x == start:
+                                acc.nt([name, N, start, r])
+            acc.cls("run_sweep_len_%d" % N)
+        acc.cls("run_sweep_lists", n_lists)
+        return
     if spec["kind"] == "exhaustive":
         dom = (1, 3, 5, 7, 9)
         n_lists = 0
@@ -141,11 +164,15 @@ def run_shard(spec, ctx):
         return
 
     floats = st.floats(allow_nan=False) | st.sampled_from([0.0, -0.0, math.inf, -math.inf, 1.0, 5e-324, -5e-324, 1e308])
+    # long lists made of a few runs of equal values (duplicates are what the leftmost / rightmost clauses are about)
+    runs = st.lists(st.tuples(st.sampled_from([-1.5, 0.0, 1.0, 2.0, 2.0000000000000004, 3.0, 1e9]), st.sampled_from([1, 2, 3, 7, 8, 9, 31, 33, 63, 64, 65, 127, 128, 129, 300])), min_size=1, max_size=5).map(
+        lambda rs: [v for v, k in rs for _ in range(k)]
+    )
     if spec.get("wide"):
         elems = st.one_of(floats, st.integers(), st.integers(min_value=2**53 - 2, max_value=2**53 + 2))
         lists = st.one_of(st.lists(elems, max_size=200), st.lists(st.text(max_size=3), max_size=50))
     else:
-        lists = st.lists(floats, max_size=200) | st.lists(st.sampled_from([0.0, -0.0, 1.0, 2.0, 2.0000000000000004]), max_size=12)
+        lists = st.lists(floats, max_size=200) | st.lists(st.sampled_from([0.0, -0.0, 1.0, 2.0, 2.0000000000000004]), max_size=12) | runs
 
     @st.composite
     def cases(draw):
@@ -177,7 +204,7 @@ def run_shard(spec, ctx):
             if nt:
                 acc.nt([name, lst, x])
         acc.cls("dup_probe" if lst.count(x) > 1 else "probe_present" if x in lst else "probe_absent")
-        acc.cls("len>=8" if len(lst) >= 8 else "len<8")
+        acc.cls("len>=128" if len(lst) >= 128 else "len>=8" if len(lst) >= 8 else "len<8")
         if len(lst) <= 6:
             acc.sample({"list": lst, "x": x, "answers": {n: ref(n, lst, x) for n in HELPERS}})
 
